@@ -323,7 +323,7 @@ Theorem main_text_runs msel version code :
       exists n m', (forall k, n <= k -> run k (e_ctx env) P (init_mach st) = (v, m')) /\ final_ok h m'.
 Proof.
   intros comps ND NP PR TG.
-  destruct (lines_roundtrip msel comps PR) as (lines & ss & A & _ & _ & HS & _).
+  destruct (lines_roundtrip msel comps PR) as (lines & lss & ss & A & _ & _ & _ & _ & HS & _).
   destruct (link_total msel comps ss HS (main_comps_nodup version code ND)) as [P LK].
   exists lines, P. split; [exact A|].
   assert (TL : parse_program msel (program_text lines) = link msel comps).
